@@ -84,10 +84,24 @@ def base_sample(cfg, tr=None, extra=None):
     return s
 
 
+class FMView:
+    """Field management as the USER configured it (from the JSON configuration, not from the model's structs):
+    bund height converted to mm as documented."""
+
+    def __init__(self, d):
+        d = d or {}
+        self.bunds = bool(d.get("bunds", False))
+        self.z_bund = float(d.get("z_bund", 0.0)) * 1000.0
+        self.bund_water = float(d.get("bund_water", 0.0))
+        self.mulches = bool(d.get("mulches", False))
+        self.sr_inhb = bool(d.get("sr_inhb", False))
+
+
 def field_mgmt_for(tr, i):
-    """Field management object in force on executed step i (season vs fallow), as the library selects it."""
-    ps = tr.model._param_struct
-    return ps.FieldMngt if tr.post[i]["growing_season"] else ps.FallowFieldMngt
+    """Field management in force on executed step i: the in-season object on growing-season days, the fallow
+    object otherwise (the growing-season flag of the day is the model's own end-of-day state)."""
+    cfg = tr.cfg
+    return FMView(cfg.get("fm") if tr.post[i]["growing_season"] else cfg.get("ffm"))
 
 
 def bunds_effective(fm):
